@@ -195,10 +195,47 @@ theorem twelfth_month_and_year_length (y : Int) :
 theorem leap_years_per_cycle :
     ((List.range 30).filter fun (y : Nat) => decide ((11 * (y : Int) + 14) % 30 < 11)).length = 11 := by decide
 
-/-- the tabular date determines the day: the mapping is one-to-one -/
+/-- length of month m of the (astronomical) tabular year y: 30/29 alternately, the twelfth 30 in leap years -/
+def tabMonthLen (y m : Int) : Int :=
+  if m = 12 then (if (11 * y + 14) % 30 < 11 then 30 else 29) else if m % 2 = 1 then 30 else 29
+
+/-- **every tabular date is the date of its day number**: `tabDate (tabFixed y m d) = (y, m, d)` for
+    month 1..12 and day 1..length of that month - with `round_trip` the tabular dates and the day
+    numbers are in bijection (one-to-one AND onto) -/
+theorem tabDate_tabFixed (y m d : Int) (hm1 : 1 ≤ m) (hm2 : m ≤ 12) (hd1 : 1 ≤ d) (hd2 : d ≤ tabMonthLen y m) :
+    tabDate (tabFixed y m d) = (y, m, d) := by
+  have hl := yearLen y
+  have hcases : m = 1 ∨ m = 2 ∨ m = 3 ∨ m = 4 ∨ m = 5 ∨ m = 6 ∨ m = 7 ∨ m = 8 ∨ m = 9 ∨ m = 10 ∨ m = 11 ∨ m = 12 := by omega
+  -- offset of the day within the year
+  have hoff : tabFixed y m d = yearStart y + (29 * (m - 1) + (6 * m - 1) / 11 + d - 1) := by
+    unfold tabFixed yearStart; omega
+  have hp0 : 0 ≤ 29 * (m - 1) + (6 * m - 1) / 11 + d - 1 := by
+    rcases hcases with h | h | h | h | h | h | h | h | h | h | h | h <;> subst h <;> omega
+  have hp1 : 29 * (m - 1) + (6 * m - 1) / 11 + d - 1 < yearStart (y + 1) - yearStart y := by
+    unfold tabMonthLen at hd2
+    rcases hcases with h | h | h | h | h | h | h | h | h | h | h | h <;> subst h <;>
+      (simp at hd2; split at hl <;> simp_all <;> omega)
+  -- the year
+  have hy : tabYear (tabFixed y m d) = y := by
+    have sp := tabYear_spec (tabFixed y m d)
+    rcases Int.lt_trichotomy (tabYear (tabFixed y m d)) y with h | h | h
+    · have := yearStart_mono (show tabYear (tabFixed y m d) + 1 ≤ y by omega); omega
+    · exact h
+    · have := yearStart_mono (show y + 1 ≤ tabYear (tabFixed y m d) by omega); omega
+  have hyy : ∀ x : Int, (30 * (x - 227015) + 10646) / 10631 = tabYear x := fun _ => rfl
+  simp only [tabDate, hyy, hy, tabFixed_first, Prod.mk.injEq, true_and]
+  have hmonth : (11 * (tabFixed y m d - yearStart y) + 330) / 325 = m := by
+    rw [hoff]
+    unfold tabMonthLen at hd2
+    rcases hcases with h | h | h | h | h | h | h | h | h | h | h | h <;> subst h <;>
+      (simp at hd2 ⊢; first | omega | (split at hd2 <;> omega))
+  rw [hmonth]
+  refine ⟨rfl, ?_⟩
+  unfold tabFixed; omega
+
 /- `round_trip` holds by cancellation for any day number; its use is `injective` below.  The converse
-   (`tabDate (tabFixed y m d) = (y, m, d)` for valid triples) is not proved: the link from the month
-   lengths of `tabFixed` to the months `tabDate` reports goes through `succ_day`. -/
+   is `tabDate_tabFixed` above. -/
+/-- the tabular date determines the day: the mapping is one-to-one -/
 theorem round_trip (g : Int) : tabFixed (tabDate g).1 (tabDate g).2.1 (tabDate g).2.2 = g := by
   simp only [tabDate, tabFixed]; omega
 
@@ -237,6 +274,9 @@ theorem no_panic_valid (dt : Date) (hv : CivilLemmas.ValidDate dt) (h1 : 1 ≤ d
 -- non-vacuity: 29 February 2024 and 31 December 9999 are such dates
 example : CivilLemmas.ValidDate ⟨2024, 2, 29⟩ ∧ CivilLemmas.ValidDate ⟨9999, 12, 31⟩ := by
   constructor <;> simp [CivilLemmas.ValidDate, CivilLemmas.dim, CivilLemmas.dbm, isLeap] <;> decide
+
+-- non-vacuity of `tabDate_tabFixed`: 30 Dhul Hijjah exists in the leap year 1445, not in 1446
+example : tabMonthLen 1445 12 = 30 ∧ tabMonthLen 1446 12 = 29 ∧ tabDate (tabFixed 1445 12 30) = (1445, 12, 30) := by decide
 
 example : hijriOf ⟨622, 7, 19⟩ = some ⟨1, 1, 1, false, 6⟩ := by decide +kernel
 example : hijriOf ⟨1, 8, 8⟩ = some ⟨640, 1, 1, true, 4⟩ := by decide +kernel
